@@ -2,7 +2,7 @@
   Model of the array code of pgdump/types.go: the tables `arrayElemTypes` / `fixedLengths`, the array branch of
   `DecodeType`, `decodeArray` and `parseArrayElements` — as they are after the patches of /verif/fixes/arrays
   (01 dataoffset from the varlena start, 02 element alignment, 03 empty array, 04 int2vector[], 05 name[],
-  06 'd'-aligned varlena elements, 07 header bounds, 08 element bounds, 09 allocation cap).
+  06 'd'-aligned varlena elements, 07 header bounds, 08 element bounds, 09 allocation cap, 10 empty-string element).
 
   One Lean function per Go function, same guards, same order of evaluation; every slice expression and index
   goes through the fault-aware primitives of Basic/Bytes (a Go panic = `.error fault`).
@@ -102,6 +102,15 @@ def nullAt (nulls : Option Bytes) (i : Nat) : M Bool :=
     let b ← idx bm (i / 8)
     pure (b.toNat &&& (1 <<< (i % 8)) == 0)
 
+/-- types.go:decodeVarlenaElem — a zero-length payload of a text-like type (text, varchar, bpchar, xml) is the empty
+string, of bytea the string `\\x`; everything else goes to `DecodeType` -/
+def decodeVarlenaElem (dec : Dec) (data : Bytes) (elemOid : Nat) : M GoVal :=
+  if data.length = 0 then
+    if elemOid = 25 ∨ elemOid = 1043 ∨ elemOid = 1042 ∨ elemOid = 142 then pure (.str [])
+    else if elemOid = 17 then pure (.str [92, 120])
+    else dec data elemOid
+  else dec data elemOid
+
 /-- one stored element at `off` (already aligned): `none` = `break`, `some (value, offset after it)` -/
 def readElem (dec : Dec) (raw : Bytes) (elemOid elemLen : Nat) (fixed : Bool) (off : Nat) : M (Option (GoVal × Nat)) :=
   if fixed then
@@ -119,7 +128,7 @@ def readElem (dec : Dec) (raw : Bytes) (elemOid elemLen : Nat) (fixed : Bool) (o
         if n < 1 ∨ off + n > raw.length then pure none
         else do
           let s ← slice raw (off + 1) (off + n)
-          let v ← dec s elemOid
+          let v ← decodeVarlenaElem dec s elemOid
           pure (some (v, off + n))
       else
         if off + 4 > raw.length then pure none
@@ -129,7 +138,7 @@ def readElem (dec : Dec) (raw : Bytes) (elemOid elemLen : Nat) (fixed : Bool) (o
           if n < 4 ∨ off + n > raw.length then pure none
           else do
             let s ← slice raw (off + 4) (off + n)
-            let v ← dec s elemOid
+            let v ← decodeVarlenaElem dec s elemOid
             pure (some (v, off + n))
 
 /-- types.go:parseArrayElements — the loop `for i := 0; i < count; i++`; arguments: iterations left, `i`, `off`.
